@@ -21,6 +21,13 @@ What is transcribed
 * `share.stamp = share.store.stamp` under `except AttributeError: stamp = None`; a store's stamp
   may itself be `None`.  Stamps are exact (`Int`, in units of 1/8 s in the harness).
 * Field names are restricted to ASCII in the harness; `isWord` is `\w` on ASCII.
+* Values: `None`, ints, strings, floats (opaque), tuples, and references to mutable objects
+  (lists, dicts) of the caller.  `setattr` stores what it is given: `update/change/create/[]=`
+  and the deck ALIAS a caller's list, they never copy it (`Op.mutate` is the caller appending to
+  one of its objects afterwards; `World.pool` holds the objects).
+* `Share.sift`, `copy`/`copyDataDict` (shallow), `reorder` (with repair D11h; as found it always
+  raised TypeError), the `data` setter (replaces the record and stamps), `truth`, and the unit
+  record `changeUnit/createUnit/fetchUnit` (a second `Data`; `Share(unit=…)` with repair D11g).
 * An operation that raises returns the state *as mutated so far* together with the error.
 Core Lean only.
 -/
@@ -35,6 +42,10 @@ inductive Val where
   | int (i : Int)
   | str (s : Str)
   | attr (name : Str)
+  | flt (bits : Nat)        -- a float, opaque (its 64-bit pattern)
+  | tup (l : List Int)      -- a tuple of ints: immutable, compared by value
+  | ref (id : Nat)          -- a MUTABLE object (list / dict) owned by the caller: the share keeps the
+                            -- reference it was given, never a copy (`World.pool` holds the contents)
 deriving DecidableEq, Repr
 
 /-! ### the field-name rule: `REO_IdentPub = ^[a-zA-Z]\w*$`, `fullmatch` -/
@@ -171,6 +182,12 @@ def items (d : Data) : Except Err (List (Str × Val)) :=
     | some v => .ok (k, v)
     | none => .error .keyError)
 
+/-- one field for `Data._sift(fields)`: `if key not in self.__dict__: raise AttributeError` -/
+def siftGet (raw : List (Str × Val)) (k : Str) : Except Err (Str × Val) :=
+  match lookup raw k with
+  | some v => .ok (k, v)
+  | none => .error .attributeError
+
 /-! ### the share, its store(s), its deck -/
 
 structure World where
@@ -180,6 +197,9 @@ structure World where
   deck : List Val
   clock0 : Option Int         -- `.stamp` of store 0
   clock1 : Option Int         -- `.stamp` of store 1
+  truth : Val := .none        -- `._truth`
+  unit : Option Data := none  -- `._unit`
+  pool : List (List Int) := [[], [], [], []]   -- the caller's mutable objects (ids 0..3)
 deriving DecidableEq, Repr
 
 def init : World :=
@@ -226,6 +246,12 @@ inductive Op where
   | get (k : Str) | keys | items | values | len
   | pop (k : Str) | popitem | setdefault (k : Str) (v : Val) | clear
   | insert (idx : Int) (k : Str) (v : Val)
+  | sift (fields : Option (List Str)) | copy | reorder (ps : List (Str × Val))
+  | setData (ps : List (Str × Val))
+  | setTruth (v : Val) | getTruth
+  | changeUnit (ps : List (Str × Val)) | createUnit (ps : List (Str × Val)) | fetchUnit (k : Str)
+  | ctorUnit (ps : List (Str × Val))          -- `Share(unit = dict(ps))`: only whether it raises / what unit it has
+  | mutate (id : Nat) (n : Int)               -- the caller appends `n` to its object `id`
   | push (v : Val) | pull | gulp (v : Val) | spew
   | setClock (i : Nat) (t : Option Int)      -- store i: `.changeStamp(t)` / `.stamp = None`
   | attach (s : Option Nat)                  -- `share.changeStore(store i)` / `changeStore(None)`
@@ -329,6 +355,58 @@ def step (w : World) : Op → World × Out
     if !identPub k then (w, .err .keyError)
     else if (lookup w.data.raw k).isSome then (w, .err .keyError)
     else ({ w with data := ⟨rawSet w.data.raw k v, pyInsert w.data.keys idx k⟩ }, .unit)
+  | .sift none =>
+    -- `odict(self.__dict__)`: every key of the key list with `dict[key]`
+    match items w.data with
+    | .ok l => (w, .pairs l)
+    | .error e => (w, .err e)
+  | .sift (some fs) =>
+    -- `for key in fields: if key not in self.__dict__: raise AttributeError; stuff[key] = …`
+    match fs.eraseDups.mapM (siftGet w.data.raw) with
+    | .ok l => (w, .pairs l)
+    | .error e => (w, .err e)
+  | .copy =>
+    -- `self._data.__dict__.copy()`: a new odict with the same (aliased) values
+    match items w.data with
+    | .ok l => (w, .pairs l)
+    | .error e => (w, .err e)
+  | .reorder ps =>
+    -- D11h repair: name rule for new keys, then `odict.reorder(other)`: `dict.update`, and every
+    -- key of `other` moves to the end of the key list
+    if ps.any (fun p => (lookup w.data.raw p.1).isNone && !identPub p.1) then (w, .err .keyError)
+    else ({ w with data := ps.foldl (fun d p => ⟨rawSet d.raw p.1 p.2, d.keys.erase p.1 ++ [p.1]⟩) w.data }, .unit)
+  | .setData ps =>
+    -- `share.data = Data(ps)`: the new record is built first (may raise), then installed and stamped
+    match changeLoop ⟨[], []⟩ ps with
+    | (d, none) => (restamp { w with data := d }, .unit)
+    | (_, some e) => (w, .err e)
+  | .setTruth v => ({ w with truth := v }, .unit)
+  | .getTruth => (w, .val w.truth)
+  | .changeUnit ps =>
+    -- `if self.unit is None: self.unit = Data()` then the `setattr` loop on the unit record
+    let r := changeLoop (w.unit.getD ⟨[], []⟩) ps
+    ({ w with unit := some r.1 }, outE r.2)
+  | .createUnit ps =>
+    let r := createLoop (w.unit.getD ⟨[], []⟩) false ps
+    ({ w with unit := some r.1 }, outE r.2.2)
+  | .fetchUnit k =>
+    -- `if self.unit: if hasattr(self._unit, field): return getattr(…)`; default None
+    match w.unit with
+    | none => (w, .val .none)
+    | some u =>
+      match getattr u k with
+      | .ok v => (w, .val v)
+      | .error _ => (w, .val .none)
+  | .ctorUnit ps =>
+    -- `Share(unit = dict(ps))` → `self.changeUnit(**unit)` (D11g repair) on a new share
+    match changeLoop ⟨[], []⟩ ps with
+    | (d, none) =>
+      (match items d with
+       | .ok l => (w, .pairs l)
+       | .error e => (w, .err e))
+    | (_, some e) => (w, .err e)
+  | .mutate id n =>
+    ({ w with pool := w.pool.mapIdx (fun i l => if i = id then l ++ [n] else l) }, .unit)
   | .push v => ({ w with deck := w.deck ++ [v] }, .unit)            -- `deque.append`
   | .pull =>
     match w.deck with
